@@ -175,6 +175,21 @@ def run (env : Env) (limit : Nat) (flt : Flt) (input : List Byte) : Code × Val 
   match parseVariant env (2 * input.length + 4) limit flt true { unread := input } with
   | (e, v, r, found) => ((if found then e else .empty), v, r.pos)
 
+/-- ARDUINOJSON_USE_DOUBLE=0: `VariantData::setFloat(double)` always stores `static_cast<float>(value)`, so the document obtained is the
+    one of the default configuration with every stored double rounded to binary32 -/
+def narrowDoubles : Val → Val
+  | .num (.f64 b) => .num (.f32 (cvt b64 b32 b))
+  | .arr xs => .arr (narrowList xs)
+  | .obj ms => .obj (narrowMembers ms)
+  | v => v
+where
+  narrowList : List Val → List Val
+    | [] => []
+    | x :: r => narrowDoubles x :: narrowList r
+  narrowMembers : List (List Byte × Val) → List (List Byte × Val)
+    | [] => []
+    | (k, x) :: r => (k, narrowDoubles x) :: narrowMembers r
+
 /-! ## serializer -/
 def beN (k n : Nat) : List Byte := (List.range k).reverse.map (fun i => UInt8.ofNat (n / 256^i % 256))
 
